@@ -1,13 +1,17 @@
 /-
 Layer G: the fresh-name search of `typesMap.newName` (derive/typesmap.go).
 
-Go strings are byte sequences and `name[:i]` slices BYTES, so a function name is modelled as a list
-of byte values (`Name`). The candidate sequence of the Go loop is
+Go strings are byte sequences, so a function name is modelled as a list of byte values (`Name`).
+Since the repair 35849dc the type name is extended letter by letter (`letters := []rune(name)`), so the
+name fragment is modelled as its list of letters (`Letter` = the non-empty UTF-8 encoding of one rune;
+type names are identifiers, hence valid UTF-8, so `name` is the concatenation of its letters).
+The candidate sequence of the Go loop is
 
     prefix, prefix_, prefix_N, prefix_Na, …, prefix_Name, prefix_Name<len+1>, prefix_Name<len+2>, …
 
 (`seqAt`): the first candidate is the bare prefix; iteration `i` of the loop builds
-`prefix + "_" + name[:i]` while `i ≤ len(name)` and `prefix + "_" + name + strconv.Itoa(i)` afterwards.
+`prefix + "_" + string(letters[:i])` while `i ≤ len(letters)` and `prefix + "_" + name + strconv.Itoa(i)`
+afterwards.
 
 The Go loop has no bound. The model runs the same loop with `fuel` = number of names that can be
 taken (table entries + reserved names); `Lemmas/TypesMap.lean` proves that the candidates are
@@ -31,25 +35,37 @@ decreasing_by omega
 /-- the byte `_` -/
 def underscore : Nat := 95
 
-/-- the candidate built by loop iteration `i` (Go: `if i > len(name) {…Itoa(i)} else {…name[:i]}`) -/
-def cand (pfx name : Name) (i : Nat) : Name :=
-  if i > name.length then pfx ++ underscore :: (name ++ itoa i)
-  else pfx ++ underscore :: name.take i
+/-- one letter of a type name: the (non-empty) UTF-8 encoding of one rune -/
+structure Letter where
+  head : Nat
+  tail : List Nat
+  deriving DecidableEq, Repr
+
+def Letter.bytes (l : Letter) : Name := l.head :: l.tail
+
+/-- `string(letters)` -/
+def flat (ls : List Letter) : Name := ls.flatMap Letter.bytes
+
+/-- the candidate built by loop iteration `i`
+(Go: `if i > len(letters) {…name + Itoa(i)} else {…string(letters[:i])}`) -/
+def cand (pfx : Name) (name : List Letter) (i : Nat) : Name :=
+  if i > name.length then pfx ++ underscore :: (flat name ++ itoa i)
+  else pfx ++ underscore :: flat (name.take i)
 
 /-- the whole candidate sequence: index 0 is the bare prefix, index `k+1` is iteration `k` -/
-def seqAt (pfx name : Name) : Nat → Name
+def seqAt (pfx : Name) (name : List Letter) : Nat → Name
   | 0 => pfx
   | k + 1 => cand pfx name k
 
 /-- the `for exists || isreserved` loop, entered after candidate `seqAt k` was found taken;
 `fuel` bounds the number of further candidates tested -/
-def newNameLoop (taken : Name → Bool) (pfx name : Name) : Nat → Nat → Name
+def newNameLoop (taken : Name → Bool) (pfx : Name) (name : List Letter) : Nat → Nat → Name
   | 0, i => cand pfx name i
   | fuel + 1, i =>
     if taken (cand pfx name i) then newNameLoop taken pfx name fuel (i + 1) else cand pfx name i
 
 /-- `newName` over an abstract `taken` predicate; `bound` = an upper bound on the number of taken names -/
-def newNameWith (taken : Name → Bool) (bound : Nat) (pfx name : Name) : Name :=
+def newNameWith (taken : Name → Bool) (bound : Nat) (pfx : Name) (name : List Letter) : Name :=
   if taken pfx then newNameLoop taken pfx name bound 0 else pfx
 
 end Goderive.G
